@@ -1,3 +1,2 @@
-import Gotlcp.Oracle.Common
-/-- placeholder: the oracle of C16 is not written yet -/
-def main : IO Unit := Gotlcp.Oracle.mainWith (fun _ _ => none)
+import Gotlcp.Oracle.C16
+def main : IO Unit := Gotlcp.Oracle.mainWith Gotlcp.Oracle.C16.judge
